@@ -21,7 +21,7 @@ from engine.src import FunctionInfo, own_nodes, own_nodes_incl_lambda, src_of, A
 from engine.util import is_self_attr, kwarg, const_value, enclosing_tests
 from engine.dataflow import ReachingDefs
 from .c01 import returns_self_on_all_paths
-from .sem import expander, ctext, want, xt, cond_want, conds_at, bind, calls, returns, stmt_of, self_attr_value_texts, guarded_values, paths, RAISE
+from .sem import truth_of, expander, ctext, want, xt, cond_want, conds_at, bind, calls, returns, stmt_of, self_attr_value_texts, guarded_values, paths, RAISE
 from engine.guards import cond_text
 
 RULES = {
@@ -97,15 +97,16 @@ def check_b(ck, repo):
     ci = repo.cls(SM, "SkBaseTransformStacking")
     tr, fit = ci.methods["transform"], ci.methods["fit"]
     X = tr.named_params[1]
+    from .sem import elementwise
+
     ps = paths(tr)
     okt = False
-    if len(ps) == 1 and not ps[0].conds and ps[0].ret not in (None, RAISE):
-        r = ps[0].ret
-        if isinstance(r, ast.Call) and ast.unparse(r.func) in ("numpy.hstack", "numpy.column_stack") and len(r.args) == 1 and isinstance(r.args[0], (ast.ListComp, ast.GeneratorExp)) or isinstance(r, ast.Call) and ast.unparse(r.func) in ("numpy.hstack",) and len(r.args) == 1 and isinstance(r.args[0], ast.Call) and ast.unparse(r.args[0].func) in ("list", "tuple") and r.args[0].args and isinstance(r.args[0].args[0], ast.GeneratorExp):
-            comp = r.args[0] if isinstance(r.args[0], (ast.ListComp, ast.GeneratorExp)) else r.args[0].args[0]
-            if len(comp.generators) == 1 and not comp.generators[0].ifs and ast.unparse(comp.generators[0].iter) == "self.models" and isinstance(comp.generators[0].target, ast.Name):
-                v = comp.generators[0].target.id
-                okt = ast.unparse(comp.elt) == f"{v}.transform({X})"
+    rets = [r_ for r_ in own_nodes(tr.node) if isinstance(r_, ast.Return) and r_.value is not None]
+    if len(ps) == 1 and not ps[0].conds and len(rets) == 1:
+        r = rets[0].value
+        if isinstance(r, ast.Call) and ast.unparse(r.func) in ("numpy.hstack", "numpy.column_stack") and len(r.args) == 1 and not r.keywords:
+            ew = elementwise(repo, tr, r.args[0], rets[0])
+            okt = ew is not None and ew[0] == ["self.models"] and xt(ew[1]) == f"__e0.transform({X})"
     ck.verdict(okt, "C15.b", tr, ps[0].ret_text() if ps else "transform", "column concatenation of the members' outputs in model order", f"stacking transform is not hstack([m.transform(X) for m in self.models]): {[p.ret_text() for p in ps]}")
     loops = [l for l in own_nodes(fit.node) if isinstance(l, ast.For)]
     ok = len(loops) == 1 and src_of(loops[0].iter) == "self.models" and isinstance(loops[0].target, ast.Name)
@@ -119,35 +120,33 @@ def check_b(ck, repo):
     # conversion keeps order and pairs model i with method i
     init = ci.methods["__init__"]
     ex = expander(repo)
-    c2t = repo.nested(init, "convert2transform")
-    convs = calls(init, lambda c: src_of(c.func) == "convert2transform")
-    okc = False
-    if len(convs) == 1:
-        c = convs[0]
-        # where the (model, method) pair comes from: zip(models, method) in order
-        comp = next((p_ for p_ in _parents(c) if isinstance(p_, (ast.ListComp, ast.GeneratorExp, ast.Lambda, ast.Call))), None)
-        src = None
-        for p_ in _parents(c):
-            if isinstance(p_, (ast.ListComp, ast.GeneratorExp)) and len(p_.generators) == 1 and not p_.generators[0].ifs:
-                src = p_.generators[0].iter
-                break
-            if isinstance(p_, ast.Call) and src_of(p_.func) == "map" and len(p_.args) == 2:
-                src = p_.args[1]
-                break
-        okc = src is not None and ex.text(src, init, stmt_of(c)).replace(" ", "") in ("zip(models,method)",)
-        # the result is a list in that order, stored as the models
-        st = stmt_of(c)
-        okc = okc and isinstance(st, ast.Assign)
-    ck.verdict(okc, "C15.b", init, convs[0] if convs else "convert2transform(...) over zip(models, method)", "models are converted one by one, in order, with their own method", "the conversion of learners into transforms no longer pairs model i with method i in order")
-    # convert2transform: a transform is kept, a learner is wrapped with the requested method
-    ps = paths(c2t)
-    mparam = c2t.named_params[0]
-    pair = len(c2t.named_params) == 2  # (pair, new_learners) or (model, method, new_learners)
-    m_t = f"{mparam}[0]" if pair else mparam
-    me_t = f"{mparam}[1]" if pair else c2t.named_params[1]
-    rets = sorted(set(p.ret_text() for p in ps if p.ret not in (None, RAISE)))
-    allowed = {m_t, ctext(f"SkBaseTransformLearner({m_t}.model, {me_t})"), ctext(f"SkBaseTransformLearner({m_t}, {me_t})")}
-    ck.verdict(bool(rets) and set(rets) <= allowed and len(rets) >= 2, "C15.b", c2t, f"returns {rets}", "a transform is kept, a learner is wrapped with the requested method", f"convert2transform returns {rets}; expected the model itself or SkBaseTransformLearner(model, its method)")
+    from .sem import elementwise, element_alternatives
+
+    M, ME = init.named_params[1], init.named_params[2]
+    stores = [st for st, _ in self_attr_value_texts(repo, init, "models")]
+    kept = converted = 0
+    for st in stores:
+        r = elementwise(repo, init, st.value, st) if isinstance(st, ast.Assign) else None
+        if r is None:
+            ck.violated("C15.b", init, st, "self.models is not built element by element from the given models: member i is not (a wrapper of) models[i]")
+            continue
+        srcs, el = r
+        if srcs == [M] and xt(el) == "__e0":
+            kept += 1
+            ck.holds("C15.b", init, st, "the given list is kept as it is", nontrivial=False)
+            continue
+        alts = element_alternatives(repo, init, el)
+        E0, E1 = "__e0", "__e1"
+        allowed = {E0, ctext(f"SkBaseTransformLearner({E0}.model, {E1})"), ctext(f"SkBaseTransformLearner({E0}, {E1})")}
+        got = sorted(set(xt(a) for _, a in alts))
+        ok = srcs[:1] == [M] and len(srcs) == 2 and set(got) <= allowed and len(got) >= 2
+        # the second sequence is the list of methods: the parameter itself or one copy of it per model
+        if ok:
+            ms = [xt(v) for _, v, _ in guarded_values(repo, init, ast.Name(id=srcs[1], ctx=ast.Load()), st)] if srcs[1] != ME else [ME]
+            ok = all(t == ME or t.replace(" ", "") in (f"[{ME}for_c0in{M}]", f"[{ME}]*len({M})", f"len({M})*[{ME}]") or t.startswith("[") for t in ms)
+        converted += 1
+        ck.verdict(ok, "C15.b", init, st, "member i is models[i] itself or SkBaseTransformLearner(models[i] or its model, method[i])", f"the conversion of learners into transforms no longer pairs model i with method i: element i of self.models is one of {got} over the sequences {srcs}")
+    ck.verdict(converted >= 1, "C15.b", init, f"self.models assigned {len(stores)} times ({kept} kept, {converted} converted)", "learners are converted into transforms", "no conversion of learners into transforms found in the constructor")
 
 
 def _parents(n):
@@ -162,27 +161,48 @@ def check_c(ck, repo):
     fit, tr = ci.methods["fit"], ci.methods["transform"]
     ex = expander(repo)
     X, y, sw = fit.named_params[1:4]
-    cs = calls(fit, lambda c: isinstance(c.func, ast.Attribute) and c.func.attr in ("fit", "partial_fit", "fit_transform", "fit_predict"))
-    if not cs:
-        ck.unknown("C15.c", fit, ".fit(...)", "no fit call found (trainable has no effect?)")
+    FITS = ("fit", "partial_fit", "fit_transform", "fit_predict")
     forms = set()
-    for c in cs:
-        conds = conds_at(repo, fit, c)
-        ck.verdict(cond_text("self.trainable") in conds, "C15.c", fit, c, "the wrapped estimator is refitted only when trainable", "a .fit call is reachable when trainable is False: fit changes the wrapped estimator and its predictions")
-        ck.verdict(src_of(c.func.value) == "self.estimator_", "C15.c", fit, f"receiver {src_of(c.func.value)}", "the object trained is estimator_ (the copy when copy_estimator)", f"{src_of(c.func.value)} is trained instead of self.estimator_: with copy_estimator the original object is modified")
-        # which signature tests select this call, and what it forwards
-        takes_y = any(t == "'y' in inspect.signature(self.estimator_.fit).parameters" and pol for t, pol in conds)
-        takes_w = any(t == "'sample_weight' in inspect.signature(self.estimator_.fit).parameters" and pol for t, pol in conds)
-        b = bind(c, ["X", "y", "sample_weight"])
-        got = {k: src_of(v) for k, v in b.items()}
-        want_ = {"X": X}
-        if takes_y:
-            want_["y"] = y
-        if takes_w:
-            want_["sample_weight"] = sw
-        forms.add((takes_y, takes_w))
-        ck.verdict(got == want_, "C15.c", fit, f"{src_of(c)} where takes_y={takes_y}, takes_weight={takes_w}", "X, y, sample_weight forwarded unchanged according to the wrapped signature", f"the wrapped fit receives {got} where its signature {'has' if takes_y else 'lacks'} y and {'has' if takes_w else 'lacks'} sample_weight: expected {want_}")
-    ck.verdict(forms == {(True, True), (True, False), (False, True), (False, False)}, "C15.c", fit, f"signature cases {sorted(forms)}", "all four signature cases of the wrapped fit are handled", f"fit call forms changed: cases {sorted(forms)}")
+    n_calls = 0
+    SIG_Y = "'y' in inspect.signature(self.estimator_.fit).parameters"
+    SIG_W = "'sample_weight' in inspect.signature(self.estimator_.fit).parameters"
+    for trainable in (True, False):
+        for p in [p for p in paths(fit, {"self.trainable": trainable}) if p.ret != RAISE]:
+            cs = [c for c in p.calls if isinstance(c.func, ast.Attribute) and c.func.attr in FITS]
+            where = " and ".join(t if pol else f"not ({t})" for t, pol in p.conds) or "always"
+            if not trainable:
+                ck.verdict(not cs, "C15.c", fit, f"trainable=False [{where[:80]}]: {[src_of(c)[:40] for c in cs]}", "the wrapped estimator is refitted only when trainable", "a .fit call is reachable when trainable is False: fit changes the wrapped estimator and its predictions")
+                continue
+            if len(cs) != 1:
+                ck.violated("C15.c", fit, f"trainable=True [{where[:80]}]", f"{len(cs)} fit calls on a path of a trainable transfer (expected exactly one)")
+                continue
+            c = cs[0]
+            n_calls += 1
+            ck.verdict(src_of(c.func.value) == "self.estimator_", "C15.c", fit, f"receiver {src_of(c.func.value)} [{where[:60]}]", "the object trained is estimator_ (the copy when copy_estimator)", f"{src_of(c.func.value)} is trained instead of self.estimator_: with copy_estimator the original object is modified")
+            takes_y, takes_w = truth_of(p.conds, SIG_Y), truth_of(p.conds, SIG_W)
+            if takes_y is False and takes_w is None:
+                pass
+            if any(isinstance(a, ast.Starred) for a in c.args) or any(k.arg is None for k in c.keywords):
+                ck.unknown("C15.c", fit, c, "arguments of the wrapped fit are passed through a container the evaluation cannot open")
+                continue
+            b = bind(c, ["X", "y", "sample_weight"])
+            got = {k: src_of(v) for k, v in b.items()}
+            want_ = {"X": X}
+            if takes_y:
+                want_["y"] = y
+            if takes_w:
+                want_["sample_weight"] = sw
+            if takes_y is None or takes_w is None:
+                # a path that did not need one of the two tests: both answers must be acceptable
+                ok = got.get("X") == X and (("y" in got) == bool(takes_y) if takes_y is not None else True) and (("sample_weight" in got) == bool(takes_w) if takes_w is not None else True) and all(got[k] == {"X": X, "y": y, "sample_weight": sw}[k] for k in got)
+                forms.add((takes_y, takes_w))
+                ck.verdict(ok and takes_y is not None and takes_w is not None, "C15.c", fit, f"{src_of(c)} where {where[:80]}", "X, y, sample_weight forwarded according to the wrapped signature", f"the wrapped fit receives {got} on a path that does not test the wrapped signature for both y and sample_weight")
+                continue
+            forms.add((takes_y, takes_w))
+            ck.verdict(got == want_, "C15.c", fit, f"{src_of(c)} where takes_y={takes_y}, takes_weight={takes_w}", "X, y, sample_weight forwarded unchanged according to the wrapped signature", f"the wrapped fit receives {got} where its signature {'has' if takes_y else 'lacks'} y and {'has' if takes_w else 'lacks'} sample_weight: expected {want_}")
+    if n_calls == 0:
+        ck.unknown("C15.c", fit, ".fit(...)", "no fit call found (trainable has no effect?)")
+    ck.verdict(forms == {(True, True), (True, False), (False, True), (False, False)}, "C15.c", fit, f"signature cases {sorted(forms, key=str)}", "all four signature cases of the wrapped fit are handled", f"fit call forms changed: cases {sorted(forms, key=str)}")
     # estimator_ provenance
     T, F = cond_text("self.copy_estimator"), cond_text("self.copy_estimator", False)
     by_guard = {}
